@@ -43,8 +43,16 @@ type Op struct {
 	Orders []OrderRuleJ `json:"orders,omitempty"`
 	// noise: a call through some OTHER entry point of the library. Its result
 	// is not an observation; it is history that must not change any later one.
-	Noise string `json:"noise,omitempty"` // limit-query | limit-schema | fmt-schema | fmt-doc | vars | argmaps | rules | json
+	// Clock: the simulated clock / randomness streams this operation got, kept
+	// in explicit (replay) form only when the operation actually used them
+	Clock *ClockJ `json:"clock,omitempty"`
+	Noise string  `json:"noise,omitempty"` // limit-query | limit-schema | fmt-schema | fmt-doc | vars | argmaps | rules | json
 	Arg   uint64 `json:"arg,omitempty"`
+}
+
+type ClockJ struct {
+	Seed uint64 `json:"seed"`
+	Mode int32  `json:"mode"` // 0 normal, 1 fast, 2 slow, 3 jumpy
 }
 
 type NamedText struct {
@@ -59,6 +67,11 @@ type Session struct {
 	// named sources.
 	ReuseSources bool `json:"reuse_sources,omitempty"`
 	NamedDocs    bool `json:"named_docs,omitempty"`
+	// Splits[i]: byte offsets at which schema text i is cut into several sources
+	// handed to LoadSchema together (empty: one source). SplitSameName: all
+	// parts carry the schema's name, else name#k.
+	Splits        [][]int `json:"splits,omitempty"`
+	SplitSameName bool    `json:"split_same_name,omitempty"`
 
 	Seed      uint64      `json:"seed"`
 	Source    string      `json:"source"`
@@ -94,18 +107,47 @@ type execState struct {
 	sess    *Session
 	schemas []*ast.Schema
 	docs    map[[2]int]*ast.QueryDocument
-	ssrc    map[int]*ast.Source // reused schema sources
+	ssrc    map[int][]*ast.Source // reused schema sources
 	dsrc    map[int]*ast.Source // reused document sources
 }
 
-func (x *execState) schemaSource(i int) *ast.Source {
+func cutsOf(s *Session, i int) []int {
+	if i < len(s.Splits) {
+		return s.Splits[i]
+	}
+	return nil
+}
+
+// buildSources cuts one schema text into the sources LoadSchema receives.
+func buildSources(name, text string, cuts []int, sameName bool) []*ast.Source {
+	var out []*ast.Source
+	prev := 0
+	for k, c := range cuts {
+		if c <= prev || c >= len(text) {
+			continue
+		}
+		n := name
+		if !sameName {
+			n = fmt.Sprintf("%s#%d", name, k)
+		}
+		out = append(out, &ast.Source{Name: n, Input: text[prev:c]})
+		prev = c
+	}
+	n := name
+	if !sameName && len(out) > 0 {
+		n = fmt.Sprintf("%s#%d", name, len(out))
+	}
+	return append(out, &ast.Source{Name: n, Input: text[prev:]})
+}
+
+func (x *execState) schemaSource(i int) []*ast.Source {
 	s := x.sess
 	if s.ReuseSources {
 		if src := x.ssrc[i]; src != nil {
 			return src
 		}
 	}
-	src := &ast.Source{Name: s.Schemas[i].Name, Input: s.Schemas[i].Text}
+	src := buildSources(s.Schemas[i].Name, s.Schemas[i].Text, cutsOf(s, i), s.SplitSameName)
 	if s.ReuseSources {
 		x.ssrc[i] = src
 	}
@@ -133,7 +175,10 @@ func (x *execState) docSource(j int) *ast.Source {
 	return src
 }
 
+var clockReads, randDraws int
+
 type opResult struct {
+	clock      *ClockJ
 	obs        []Obs
 	visits     []verifsim.Visit
 	skipped    bool
@@ -174,6 +219,18 @@ func (x *execState) orderCfg(i int, capture bool) verifsim.OrderCfg {
 	return c
 }
 
+func (x *execState) clockCfg(i int) verifsim.ClockCfg {
+	s := x.sess
+	if s.Explicit {
+		if c := s.Ops[i].Clock; c != nil {
+			return verifsim.ClockCfg{Seed: c.Seed, Mode: c.Mode}
+		}
+		return verifsim.ClockCfg{}
+	}
+	seed := gen.Mix(s.OrderSeed^0xc10c, uint64(i))
+	return verifsim.ClockCfg{Seed: seed, Mode: int32(seed>>7) & 3}
+}
+
 func validateText(schema *ast.Schema, text string) (*ast.QueryDocument, gqlerror.List) {
 	return validateSource(schema, &ast.Source{Input: text})
 }
@@ -198,10 +255,10 @@ func (x *execState) runOp(i int, capture bool) (res opResult) {
 	}
 	lkey := fmt.Sprintf("L|%d", op.S)
 	vkey := fmt.Sprintf("V|%d|%d", op.S, op.D)
-	src := func() *ast.Source { return x.schemaSource(op.S) }
+	src := func() []*ast.Source { return x.schemaSource(op.S) }
 	switch op.Kind {
 	case "noise":
-		if op.Noise != "limit-query" && op.Noise != "limit-schema" && x.schemas[op.S] == nil {
+		if op.Noise != "limit-query" && op.Noise != "limit-schema" && op.Noise != "replace-rule" && x.schemas[op.S] == nil {
 			res.skipped = true
 			return
 		}
@@ -218,6 +275,15 @@ func (x *execState) runOp(i int, capture bool) (res opResult) {
 	}
 	verifsim.BeginOp(x.orderCfg(i, capture))
 	defer func() { res.visits = verifsim.EndOp() }()
+	cc := x.clockCfg(i)
+	verifsim.BeginClock(cc)
+	defer func() {
+		if rd, dr := verifsim.ClockUse(); rd+dr > 0 {
+			res.clock = &ClockJ{cc.Seed, cc.Mode}
+			clockReads += int(rd)
+			randDraws += int(dr)
+		}
+	}()
 	verifsim.ArmOpBudget(opYieldBudget)
 	defer func() {
 		if verifsim.DisarmOpBudget() {
@@ -231,13 +297,13 @@ func (x *execState) runOp(i int, capture bool) (res opResult) {
 	pan := protect(func() {
 		switch op.Kind {
 		case "load":
-			sc, err := gqlparser.LoadSchema(src())
+			sc, err := gqlparser.LoadSchema(src()...)
 			if err == nil {
 				x.schemas[op.S] = sc
 			}
 			res.obs = append(res.obs, Obs{lkey, gen.RenderError(err), i})
 		case "fresh":
-			sc, err := gqlparser.LoadSchema(src())
+			sc, err := gqlparser.LoadSchema(src()...)
 			res.obs = append(res.obs, Obs{lkey, gen.RenderError(err), i})
 			if err == nil {
 				_, errs := validateSource(sc, x.docSource(op.D))
@@ -314,11 +380,21 @@ func (x *execState) noise(op Op) {
 				var b strings.Builder
 				formatter.NewFormatter(&b).FormatQueryDocument(d)
 			}
+		case "replace-rule":
+			// a neutral replacement: the same function under the same name
+			rl := []validator.Rule{rules.KnownArgumentNamesRule, rules.FieldsOnCorrectTypeRule, rules.NoUnusedVariablesRule, rules.ScalarLeafsRule, rules.KnownTypeNamesRule, rules.UniqueArgumentNamesRule}
+			x := gen.Pick(r, rl)
+			validator.ReplaceRule(x.Name, x.RuleFunc)
 		case "vars", "argmaps":
-			// on a document of its own (a kept document is validated again later)
-			d, errs := validateSource(x.schemas[op.S], &ast.Source{Input: s.Docs[op.D]})
-			if d == nil || len(errs) > 0 {
-				return
+			// on the kept (already validated) document when it was valid - it is
+			// validated again later - else on a document of its own
+			d := x.docs[[2]int{op.S, op.D}]
+			if d == nil || r.Chance(1, 2) || (op.Noise == "vars" && len(validator.Validate(x.schemas[op.S], d)) > 0) {
+				var errs gqlerror.List
+				d, errs = validateSource(x.schemas[op.S], &ast.Source{Input: s.Docs[op.D]})
+				if d == nil || len(errs) > 0 {
+					return
+				}
 			}
 			vars := gen.GenVars(r, x.schemas[op.S], d)
 			if op.Noise == "vars" {
@@ -326,8 +402,14 @@ func (x *execState) noise(op Op) {
 					validator.VariableValues(x.schemas[op.S], o, vars)
 				}
 			} else {
+				// (argument maps are resolved wherever the walker linked a
+				// definition, also in documents that did not validate; a subset of
+				// the fields, as an executor resolves one of several merged fields)
 				var b strings.Builder
-				gen.RenderArgMaps(&b, d, vars)
+				gen.RenderArgMapsSome(&b, d, vars, r)
+				if os.Getenv("VERIF_TRACE") != "" {
+					fmt.Fprintf(os.Stderr, "noise argmaps kept=%v: %s\n", d == x.docs[[2]int{op.S, op.D}], b.String())
+				}
 			}
 		case "rules":
 			d, err := parser.ParseQuery(&ast.Source{Input: s.Docs[op.D]})
@@ -348,9 +430,10 @@ func (x *execState) noise(op Op) {
 	})
 }
 
-var noiseKinds = []string{"limit-query", "limit-schema", "fmt-schema", "fmt-doc", "vars", "argmaps", "rules", "json"}
+var noiseKinds = []string{"limit-query", "limit-schema", "fmt-schema", "fmt-doc", "vars", "argmaps", "rules", "json", "replace-rule"}
 
 type sessionRun struct {
+	clocks     []*ClockJ // per op, when used
 	obs        []Obs
 	visits     [][]verifsim.Visit // per op
 	executed   int
@@ -358,9 +441,10 @@ type sessionRun struct {
 }
 
 func runSession(s *Session, capture bool) sessionRun {
-	x := &execState{sess: s, schemas: make([]*ast.Schema, len(s.Schemas)), docs: map[[2]int]*ast.QueryDocument{}, ssrc: map[int]*ast.Source{}, dsrc: map[int]*ast.Source{}}
+	x := &execState{sess: s, schemas: make([]*ast.Schema, len(s.Schemas)), docs: map[[2]int]*ast.QueryDocument{}, ssrc: map[int][]*ast.Source{}, dsrc: map[int]*ast.Source{}}
 	var r sessionRun
 	r.visits = make([][]verifsim.Visit, len(s.Ops))
+	r.clocks = make([]*ClockJ, len(s.Ops))
 	for i := range s.Ops {
 		res := x.runOp(i, capture)
 		if !res.skipped {
@@ -371,6 +455,7 @@ func runSession(s *Session, capture bool) sessionRun {
 		}
 		r.obs = append(r.obs, res.obs...)
 		r.visits[i] = res.visits
+		r.clocks[i] = res.clock
 	}
 	return r
 }
@@ -383,6 +468,7 @@ func explicitForm(s *Session, r sessionRun) *Session {
 	c.Ops = make([]Op, len(s.Ops))
 	for i, op := range s.Ops {
 		op.Orders = nil
+		op.Clock = r.clocks[i]
 		for _, v := range r.visits[i] {
 			if v.Mode == verifsim.OrdCanonical || !v.Effective {
 				continue
@@ -534,6 +620,34 @@ func genSession(seed uint64, source string) *Session {
 	}
 	s.ReuseSources = r.Chance(1, 3)
 	s.NamedDocs = r.Chance(1, 4)
+	if r.Chance(1, 4) {
+		// schemas arrive in several files
+		if len(s.Splits) == 0 {
+			s.SplitSameName = r.Chance(1, 2)
+		}
+		for len(s.Splits) < len(s.Schemas) {
+			s.Splits = append(s.Splits, nil)
+		}
+		for i := range s.Schemas {
+			if len(s.Splits[i]) > 0 {
+				continue
+			}
+			chunks := splitChunks(s.Schemas[i].Text)
+			if len(chunks) < 3 {
+				continue
+			}
+			var offs []int
+			off := 0
+			for _, c := range chunks[:len(chunks)-1] {
+				off += len(c)
+				offs = append(offs, off)
+			}
+			for k, n := 0, r.Range(1, 2); k < n; k++ {
+				s.Splits[i] = append(s.Splits[i], gen.Pick(r, offs))
+			}
+			sort.Ints(s.Splits[i])
+		}
+	}
 	noisy := r.Chance(1, 2) // half of the sessions also go through other entry points
 	kinds := []string{"load", "fresh", "first", "again", "query", "noise"}
 	for len(s.Ops) < n {
@@ -552,7 +666,7 @@ func genSession(seed uint64, source string) *Session {
 				continue
 			}
 			op.D = r.Intn(nd)
-			if k == "again" && r.Chance(2, 3) {
+			if (k == "again" || (k == "noise" && (op.Noise == "argmaps" || op.Noise == "vars" || op.Noise == "fmt-doc" || op.Noise == "json"))) && r.Chance(2, 3) {
 				// prefer a pair that has been validated before
 				var prev []Op
 				for _, p := range s.Ops {
@@ -874,6 +988,7 @@ func c10Main(args []string) {
 								k.DocName = docName(s, di)
 							}
 						}
+						k.Cuts, k.SameName = cutsOf(s, si), s.SplitSameName
 						isoKeys = append(isoKeys, k)
 					}
 				}
@@ -929,6 +1044,8 @@ func c10Main(args []string) {
 	}
 	sort.Slice(st.EffectiveHashes, func(i, j int) bool { return st.EffectiveHashes[i] < st.EffectiveHashes[j] })
 	st.Probes["panics_recovered"] = panicsSeen
+	st.Probes["simulated_clock_readings"] = clockReads
+	st.Probes["simulated_random_draws"] = randDraws
 	st.Probes["operations_cut_off_at_yield_budget"] = opsOverBudget
 	st.OverBudgetSessions = overSessions
 	st.WallS = time.Since(t0).Seconds()
@@ -949,6 +1066,8 @@ type isoKey struct {
 	Schema     string `json:"schema"`
 	Doc        string `json:"doc,omitempty"`
 	DocName    string `json:"doc_name,omitempty"`
+	Cuts       []int  `json:"cuts,omitempty"`
+	SameName   bool   `json:"split_same_name,omitempty"`
 	Hash       uint64 `json:"hash"`
 	Rendering  string `json:"rendering"`
 	Session    uint64 `json:"session"`
@@ -985,10 +1104,10 @@ func evalIsolated(k *isoKey) (res isoResult) {
 		}
 	}()
 	p := protect(func() {
-		sc, err := gqlparser.LoadSchema(&ast.Source{Name: k.SchemaName, Input: k.Schema})
+		sc, err := gqlparser.LoadSchema(buildSources(k.SchemaName, k.Schema, k.Cuts, k.SameName)...)
 		if k.Kind == "L" {
 			res.A = gen.RenderError(err)
-			_, err2 := gqlparser.LoadSchema(&ast.Source{Name: k.SchemaName, Input: k.Schema})
+			_, err2 := gqlparser.LoadSchema(buildSources(k.SchemaName, k.Schema, k.Cuts, k.SameName)...)
 			res.B = gen.RenderError(err2)
 			return
 		}
@@ -1128,6 +1247,14 @@ func sessionLog(s *Session, r sessionRun) []string {
 func joinSessions(a, b *Session) *Session {
 	j := &Session{Seed: b.Seed, Source: "joined", Explicit: true}
 	j.Schemas = append(append([]NamedText{}, a.Schemas...), b.Schemas...)
+	for i := range a.Schemas {
+		j.Splits = append(j.Splits, cutsOf(a, i))
+	}
+	for i := range b.Schemas {
+		j.Splits = append(j.Splits, cutsOf(b, i))
+	}
+	j.SplitSameName = a.SplitSameName || b.SplitSameName
+	j.ReuseSources, j.NamedDocs = b.ReuseSources, b.NamedDocs
 	j.Docs = append(append([]string{}, a.Docs...), b.Docs...)
 	j.Ops = append(j.Ops, a.Ops...)
 	for _, op := range b.Ops {
@@ -1160,6 +1287,9 @@ func classOf(s *Session, w *Witness) (string, string) {
 		for _, r := range op.Orders {
 			sites[siteFileLine(r.Site)] = true
 		}
+		if op.Clock != nil {
+			sites["simulated-clock-or-randomness"] = true
+		}
 	}
 	var sl []string
 	for k := range sites {
@@ -1186,6 +1316,10 @@ func cloneSession(s *Session) *Session {
 	c := *s
 	c.Schemas = append([]NamedText{}, s.Schemas...)
 	c.Docs = append([]string{}, s.Docs...)
+	c.Splits = nil
+	for _, sp := range s.Splits {
+		c.Splits = append(c.Splits, append([]int{}, sp...))
+	}
 	c.Ops = make([]Op, len(s.Ops))
 	for i, op := range s.Ops {
 		op.Orders = append([]OrderRuleJ{}, op.Orders...)
@@ -1242,6 +1376,14 @@ func minimiseC10(s *Session, w *Witness) (*Session, *Witness) {
 	// 3. shrink texts: whole definitions, then single lines
 	shrinkTexts := func() {
 		for si := range cur.Schemas {
+			if len(cutsOf(cur, si)) > 0 {
+				// try the unsplit schema first; offsets do not survive text shrinking
+				c := cloneSession(cur)
+				c.Splits[si] = nil
+				if !try(c) {
+					continue
+				}
+			}
 			cur.Schemas[si].Text = shrinkText(cur.Schemas[si].Text, deadline, func(t string) bool {
 				c := cloneSession(cur)
 				c.Schemas[si].Text = t
@@ -1326,10 +1468,12 @@ func compactPools(s *Session) *Session {
 	usedS, usedD := map[int]int{}, map[int]int{}
 	var ns []NamedText
 	var nd []string
+	var nsp [][]int
 	for i, op := range c.Ops {
 		if _, ok := usedS[op.S]; !ok {
 			usedS[op.S] = len(ns)
 			ns = append(ns, s.Schemas[op.S])
+			nsp = append(nsp, cutsOf(s, op.S))
 		}
 		c.Ops[i].S = usedS[op.S]
 		if op.Kind != "load" {
@@ -1340,7 +1484,18 @@ func compactPools(s *Session) *Session {
 			c.Ops[i].D = usedD[op.D]
 		}
 	}
-	c.Schemas, c.Docs = ns, nd
+	if c.NamedDocs {
+		// document names are derived from pool positions: keep the document pool as it is
+		c.Schemas, c.Splits = ns, nsp
+		c.Docs = append([]string{}, s.Docs...)
+		for i, op := range s.Ops {
+			if op.Kind != "load" {
+				c.Ops[i].D = op.D
+			}
+		}
+		return c
+	}
+	c.Schemas, c.Docs, c.Splits = ns, nd, nsp
 	return c
 }
 
